@@ -1,5 +1,6 @@
 import DendroModel.Basic.Tree
 import DendroModel.Model.C18
+import DendroModel.Model.C18Rates
 open DendroModel DendroModel.C18
 
 /-! Line protocol of `drv_c18` (all numbers are integers in the harness's time / rate units):
@@ -8,6 +9,10 @@ open DendroModel DendroModel.C18
   pb   <n> <draws…>                                 uniform_pure_birth_tree
   king <n> <pop> <draws…>                           pure_kingman_tree
   cont <fix|ru<k>> <m> <par×m> <len×m> <pop×m> <ngenes×m> <draws…>   contained_coalescent_tree / constrained_kingman_tree
+  mking <n> <pop> <L> <draws…>                      mean_kingman_tree (expected waiting times, lengths in units 1/L)
+  frames <n> <pop> <draws…>                         extract_coalescent_frames of the pure_kingman_tree of that script: `ok k:t …`
+  rates bd|bdx|bdt|fbd <same arguments as the op>   the arguments of rng.expovariate along the run, in call order: `ok r …`
+  rates pb <n> <b>   /   rates king <n>             `ok num/den …`  /  `ok r …`
 draws: w<int> u<num>/<den> g<int> p<i,j,…> s<i>,<j> c<i> i<int>.  Answer: `ok <tree>` or `err <kind>`. -/
 
 def natsCsv (s : String) : Option (List Nat) :=
@@ -53,20 +58,23 @@ def buildST (fuel : Nat) (par : Array Int) (lens : Array (Option Int)) (pops : A
     .node i (lens[i]!) (pops[i]!) ((List.range (ng[i]!)).map (fun k => (i, k + 1)))
       (kids.map (buildST f par lens pops ng))
 
-def runBD (fast : Bool) (n mt b d n0 : String) (rest : List String) : String :=
+def showRates (rs : List Int) : String := " ".intercalate ("ok" :: rs.map toString)
+
+def runBD (tr fast : Bool) (n mt b d n0 : String) (rest : List String) : String :=
   match optNat n, optInt mt, b.toInt?, d.toInt?, n0.toNat?, rest.mapM parseDraw with
   | some n, some mt, some b, some d, some n0, some ds =>
     let P : BDParams := { nTips := n, maxTime := mt, b := b, d := d }
-    if fast then showSim (fbdRun P n0 ds) else showSim (bdRun P n0 ds)
+    if tr then showRates (if fast then fbdRates P ds else bdRates P ds)
+    else if fast then showSim (fbdRun P n0 ds) else showSim (bdRun P n0 ds)
   | _, _, _, _, _, _ => "bad-op"
 
 /-- `bdx N|- maxT|- nExtinct|- nTotal|- retain(0|1) b d n0 draws…` -/
-def runBDX (n mt nx nt ret b d n0 : String) (rest : List String) : String :=
+def runBDX (tr : Bool) (n mt nx nt ret b d n0 : String) (rest : List String) : String :=
   match optNat n, optInt mt, optNat nx, optNat nt, b.toInt?, d.toInt?, n0.toNat?, rest.mapM parseDraw with
   | some n, some mt, some nx, some nt, some b, some d, some n0, some ds =>
     if ret != "0" && ret != "1" then "bad-op" else
     let P : BDParams := { nTips := n, maxTime := mt, b := b, d := d, nExtinct := nx, nTotal := nt, retain := ret == "1" }
-    showSim (bdRun P n0 ds)
+    if tr then showRates (bdRates P ds) else showSim (bdRun P n0 ds)
   | _, _, _, _, _, _, _, _ => "bad-op"
 
 /-- `gsa N G b d n0 draws…`; answer `ok <tree>`, `raises` (the code's TypeError), or `err <kind>` -/
@@ -93,7 +101,7 @@ def buildBT (fuel : Nat) (par : Array Int) (lens : Array Int) (i : Nat) : Option
     | _ => none
 
 /-- `bdt N|- maxT|- b d n0 m par×m len×m draws…`: `birth_death_tree(..., tree=<start>)` -/
-def runBDT (n mt b d n0 m : String) (toks : List String) : String :=
+def runBDT (tr : Bool) (n mt b d n0 m : String) (toks : List String) : String :=
   match optNat n, optInt mt, b.toInt?, d.toInt?, n0.toNat?, m.toNat? with
   | some n, some mt, some b, some d, some n0, some m =>
     if toks.length < 2 * m || m == 0 then "bad-op" else
@@ -103,7 +111,9 @@ def runBDT (n mt b d n0 m : String) (toks : List String) : String :=
       if !ok then "bad-op" else
       match buildBT (m + 1) par.toArray lens.toArray 0 with
       | none => "bad-op"
-      | some t => showSim (bdRun { nTips := n, maxTime := mt, b := b, d := d, start := t } n0 ds)
+      | some t =>
+        let P : BDParams := { nTips := n, maxTime := mt, b := b, d := d, start := t }
+        if tr then showRates (bdRates P ds) else showSim (bdRun P n0 ds)
     | _, _, _ => "bad-op"
   | _, _, _, _, _, _ => "bad-op"
 
@@ -147,12 +157,35 @@ def runCont (mode m : String) (toks : List String) : String :=
 
 def handle (ws : List String) : String :=
   match ws with
-  | "bd" :: n :: mt :: b :: d :: n0 :: rest => runBD false n mt b d n0 rest
-  | "fbd" :: n :: mt :: b :: d :: n0 :: rest => runBD true n mt b d n0 rest
+  | "bd" :: n :: mt :: b :: d :: n0 :: rest => runBD false false n mt b d n0 rest
+  | "fbd" :: n :: mt :: b :: d :: n0 :: rest => runBD false true n mt b d n0 rest
+  | "rates" :: "bd" :: n :: mt :: b :: d :: n0 :: rest => runBD true false n mt b d n0 rest
+  | "rates" :: "fbd" :: n :: mt :: b :: d :: n0 :: rest => runBD true true n mt b d n0 rest
+  | "rates" :: "bdt" :: n :: mt :: b :: d :: n0 :: m :: toks => runBDT true n mt b d n0 m toks
+  | "rates" :: "bdx" :: n :: mt :: nx :: nt :: ret :: b :: d :: n0 :: rest => runBDX true n mt nx nt ret b d n0 rest
+  | ["rates", "pb", n, b] =>
+    match n.toNat?, b.toInt? with
+    | some n, some b => " ".intercalate ("ok" :: (pbRates n b).map (fun r => toString r.1 ++ "/" ++ toString r.2))
+    | _, _ => "bad-op"
+  | ["rates", "king", n] =>
+    match n.toNat? with
+    | some n => showRates (kingRates n)
+    | none => "bad-op"
+  | "mking" :: n :: pop :: l :: rest =>
+    match n.toNat?, pop.toNat?, l.toInt?, rest.mapM parseDraw with
+    | some n, some pop, some l, some ds => showGT (fun p => toString p.1) (meanKingman n pop l ds)
+    | _, _, _, _ => "bad-op"
+  | "frames" :: n :: pop :: rest =>
+    match n.toNat?, pop.toNat?, rest.mapM parseDraw with
+    | some n, some pop, some ds =>
+      match kingman n pop ds with
+      | .error e => "err " ++ errName e
+      | .ok t => " ".intercalate ("ok" :: (frames t).map (fun f => toString f.1 ++ ":" ++ toString f.2))
+    | _, _, _ => "bad-op"
   | "dbd" :: b :: d :: rs :: n :: mg :: rep :: rest => runDBD b d rs n mg rep rest
-  | "bdt" :: n :: mt :: b :: d :: n0 :: m :: toks => runBDT n mt b d n0 m toks
+  | "bdt" :: n :: mt :: b :: d :: n0 :: m :: toks => runBDT false n mt b d n0 m toks
   | "gsa" :: n :: g :: b :: d :: n0 :: rest => runGSA n g b d n0 rest
-  | "bdx" :: n :: mt :: nx :: nt :: ret :: b :: d :: n0 :: rest => runBDX n mt nx nt ret b d n0 rest
+  | "bdx" :: n :: mt :: nx :: nt :: ret :: b :: d :: n0 :: rest => runBDX false n mt nx nt ret b d n0 rest
   | "pb" :: n :: rest =>
     match n.toNat?, rest.mapM parseDraw with
     | some n, some ds => showSim (pbRun n ds)
